@@ -66,6 +66,9 @@ CLAIMED = {
  "C14": dict(technique="compositional abstract interpretation over an exact rational-function domain (factored denominators) with symbolic xtensor containers / views / transposes: factor tables, Thomas solver residual identities, line sweep with the solver summarised by fresh symbols, composition of the two sweeps with the sweep summarised; end-to-end cross-check against an independent symbolic Gaussian elimination on small grids",
              text="Decides, as identities of rational functions valid for all elevations, diffusivities, spacings and time steps (real arithmetic): the factor tables (scalar, face-averaged array, the two agreeing for a uniform array), that the tridiagonal solver solves every system of the shape the sweep produces (3..8 / 3..10 unknowns), that each sweep assembles exactly the implicit Peaceman-Rachford half step with fixed-value ends on any line (grids 3x3, 4x5; uninitialised border factor entries never used), that erode() composes the two sweeps on the transposes with the factor roles exchanged, zero erosion on the borders and linearity. Lines longer than 10 nodes (no inductive argument over the Thomas recursion) and floating-point rounding / stiffness are not decided.",
              ref="§12.2 (C14)"),
+ "C18": dict(technique="bounded exhaustive abstract interpretation of the mesh construction code over all small triangle lists, the unordered edge map being driven by the repository's own interpreted key-equality functor (plus a symbolic hash/equality consistency check); exact rational-function interpretation of the distance and area code with uninterpreted square roots against independently computed circumcentre quadrilaterals",
+             text="Decides, for every list of <= 3 triangles over <= 5 nodes (thorough: also 3 over 6 nodes and 4 over 5 nodes) with every edge in at most two triangles, every vertex order of one triangle at a time and both map iteration orders: neighbours = nodes sharing a triangle edge (no duplicates, symmetric, accessors agree), symbolic Euclidean distances, default fixed-value status exactly on end points of edges seen once; that the edge key equality / hash ignore orientation; and, as identities of rational functions of symbolic coordinates, the squared triangle area, the circumcentric share of every node in every triangle and the total area, on 1-3 triangle meshes in all vertex orders. Larger meshes, degenerate triangles and rounding are not decided.",
+             ref="§12.2 (C18)"),
 }
 NA = {
  "C18": "edge lengths, boundary detection from edge multiplicities and circumcentric areas are geometric values over arbitrary triangulations; static analysis has no domain relating mesh input to those outputs",
